@@ -256,6 +256,7 @@ type c16Case struct {
 	Code   int
 	Stdout string
 	Stderr string
+	Tree   *c16Tree // stream trees: the journal as written (an include tree); J is then the union of the members' directives
 }
 
 func (tc *c16Case) Args(path string) []string {
@@ -270,7 +271,11 @@ func (tc *c16Case) Input() map[string]any {
 	if tc.NoV {
 		a = "transcode FILE"
 	}
-	return map[string]any{"journal": tc.Text, "args": a, "wire_journal": tc.J.Wire()}
+	in := map[string]any{"journal": tc.Text, "args": a, "wire_journal": tc.J.Wire()}
+	if tc.Tree != nil {
+		tc.Tree.describe(in)
+	}
+	return in
 }
 
 func c16RenameAccount(j *Journal, from, to string) {
@@ -345,7 +350,7 @@ func c16GenCase(c *Ctx, stream string, i int, malformed bool) *c16Case {
 		o.Mutate = r.Chance(1, 2)
 		o.DropPrices = r.Chance(1, 3)
 	}
-	lifecycle := stream == "lifecycle"
+	lifecycle := stream == "lifecycle" || (stream == "trees" && i%3 == 1)
 	if lifecycle {
 		// accounts that hold positions over night, are emptied (wholly, partly, in several bookings), closed on the emptying
 		// day or later, re-opened and used again, over more days than the other streams have
@@ -499,7 +504,13 @@ func c16Check(c *Ctx, bt *Batch, tc *c16Case, agreed *bool) {
 			c.Tag("model-unsupported")
 			return
 		}
-		if !c.Compare(tc.Stream, tc.Idx, "transcode", in, impl, modelOutcomeCanon(model)) {
+		im, mo := impl, modelOutcomeCanon(model)
+		if tc.Tree != nil && tc.Tree.Scatter {
+			// opens (closes) of one day stand in several files: their order in the day's list is the order in which the
+			// parsers of the files finish
+			im, mo = c16LooseOutcome(im), c16LooseOutcome(mo)
+		}
+		if !c.Compare(tc.Stream, tc.Idx, "transcode", in, im, mo) {
 			*agreed = false
 			f := &c.Findings[len(c.Findings)-1]
 			if strings.HasPrefix(model, "ok ") {
@@ -688,6 +699,7 @@ func runC16(c *Ctx) {
 	d1 := runStream("transcode", 0, n, false)
 	d2 := runStream("malformed", 0, n/4, true)
 	d2 = append(d2, runStream("lifecycle", 0, n/4, false)...)
+	d2 = append(d2, c16RunTrees(c, dir, 0, c.N(2000, 40000))...)
 	runDecStream(c, c.N(2000, 20000))
 	// directed search: when code and model differ, widen the round (3x the budget of the stream, fresh indices):
 	// the invariants are evaluated on the real output of every additional case
@@ -697,4 +709,666 @@ func runC16(c *Ctx) {
 	} else if c.Replay && c.OnlyStr == "transcode" && c.OnlyIndex >= n {
 		runStream("transcode", c.OnlyIndex, c.OnlyIndex+1, false)
 	}
+}
+
+// ---------------------------------------------------------------- stream "trees": the journal is an include tree
+//
+// The property speaks about "the journal": the directives of the file named on the command line and of every file it
+// includes, directly or not.  The other streams write one file per case.  Here the generated journal (well-formed,
+// lifecycle or malformed, exactly as in the other streams) is spread over 1-6 files in up to four directories, and the
+// command must print byte for byte what the model prints for the union of the members' directives - which is also what
+// the command itself prints for the same directives in ONE file (monitor tree_equals_single_file) -, and every ledger
+// invariant is evaluated on the output against that union (a member whose transactions are missing from the ledger fails
+// user_transactions_kept and ledgerOK/transactions-equal-valued-transactions).  A tree one of whose members cannot be
+// loaded (an include that names nothing, a member that is gone / a directory / a dangling or looping link / unreadable,
+// an include cycle, a member with a line that is no directive) is no journal: the command must fail, with an empty
+// stdout (monitors unloadable_tree_rejected, clean_failure).
+//
+// (Seeded change C16-h expanded include paths as glob patterns: an include that matched nothing was skipped silently
+// and the ledger lacked the member's transactions.)
+
+type c16TItem struct {
+	Kind byte   // 'd' directive, 'i' include (Path as spelled), 'g' a line that is no directive (Path is the line)
+	Dir  JDir   // d
+	Path string // i, g
+	To   int    // i: index of the member the include names, -1 when it names none
+}
+
+type c16TFile struct {
+	Rel   string // path below the case directory
+	Items []c16TItem
+	Head  string
+	Seps  []string // after item k (k < last)
+	Tail  string
+	IncSp string
+	State string // "" a regular file; otherwise what stands at the path instead: absent, directory, dangling-link, link-loop, unreadable
+}
+
+type c16Tree struct {
+	Files   []*c16TFile // Files[0] is the root
+	Root    string      // the root's path below the case directory as spelled on the command line
+	Shape   string
+	Dist    string
+	Scatter bool   // opens / closes of one day may stand in several files (their order in the output is then free)
+	Twice   bool   // a member without includes is included twice
+	Fault   string // "" for a loadable tree
+	// the same directives in one file, through the same command
+	SCode      int
+	SOut, SErr string
+}
+
+var (
+	c16THeads  = []string{"", "", "", "\n", "\n\n\n", " \n", "\r\n", "\t\r\n", "# head\n", "* heading\r\n\r\n", "// c\n\n", "#\n"}
+	c16TEnds   = []string{"\n", "\n", "\n", "\r\n", " \n", "\t\r\n"}
+	c16TBlanks = []string{"\n", "\n", "\r\n", " \n", "\t \r\n"}
+	c16TFill   = []string{"# c\n", "// x\r\n", "* y\n", "\n", "  \n", "#\n", "\n\n\n"}
+	// file ends: nothing at all after the last directive, blanks only, one line end, many, a comment with and without line end
+	c16TTails = []string{"", "", "", " ", "\t", "\r", "  \t ", "\n", "\n", "\r\n", "\n\n\n", "\n \n\t", "\n# end", "\n// end\r\n", "\n* end\r", "\r\n\r\n "}
+	c16TIncSp = []string{" ", " ", " ", "  ", "\t", " \t "}
+	c16TExts  = []string{".knut", ".knut", ".knut", ".knut", ".txt", "", ".knut.bak", ".KNUT", ".journal", ".k"}
+	// member names that are ordinary file names but mean something to a shell, a pattern matcher or a URL parser
+	c16TOddNames = []string{"f[%d].knut", "f*%d.knut", "f%d?.knut", "f\\%d.knut", " f %d .knut", ".f%d.knut", "f%d..knut", "ünï-%d.knut", "f%d{a,b}.knut", "~f%d.knut", "f%d#x.knut", "f%d%%20.knut", "-f%d.knut"}
+	c16TDirs     = []string{"inc", "a b", "ä", "d.knut", "x/y/z", "2023", "sub.d/sub"}
+	c16TGarbage  = []string{"%%%", "2021-02-30 open Assets:Nowhere", "include f.knut", "\"unterminated", "2020-01-01 opne Assets:X", "Assets:A Assets:B 1 CHF",
+		"2020-01-01", "include \"f.knut", "2020-01-01 price USD", "-", "2020-01-01 open", "@", "include\"x.knut\"", "20200101 open Assets:X", "<<<<<<< HEAD"}
+)
+
+func c16TBlock(d JDir) bool {
+	return d.Kind == 't' || (d.Kind == 'a' && (len(d.Balances) != 1 || d.MultiLine))
+}
+
+// text is the content of the file.  A transaction (a multi-line assertion) ends at a line that is empty or begins with
+// a blank, or at the end of the file: such a line is put in where the drawn bytes have none.
+func (f *c16TFile) text() string {
+	var b strings.Builder
+	b.WriteString(f.Head)
+	for k, it := range f.Items {
+		block := false
+		switch it.Kind {
+		case 'd':
+			b.WriteString(strings.TrimSuffix(it.Dir.Text(), "\n"))
+			block = c16TBlock(it.Dir)
+		case 'i':
+			fmt.Fprintf(&b, "include%s\"%s\"", f.IncSp, it.Path)
+		default:
+			b.WriteString(it.Path)
+		}
+		after := f.Tail
+		if k < len(f.Items)-1 {
+			after = f.Seps[k]
+		}
+		if block {
+			if nl := strings.IndexByte(after, '\n'); nl >= 0 && nl+1 < len(after) {
+				if ch := after[nl+1]; ch != '\n' && ch != ' ' && ch != '\t' && ch != '\r' {
+					after = after[:nl+1] + "\n" + after[nl+1:]
+				}
+			} else if k < len(f.Items)-1 {
+				after += "\n"
+			}
+		}
+		b.WriteString(after)
+	}
+	if len(f.Items) == 0 {
+		b.WriteString(f.Tail)
+	}
+	return b.String()
+}
+
+func c16TRel(fromDir, to string) string {
+	rel, err := filepath.Rel("/"+fromDir, "/"+to)
+	if err != nil {
+		return to
+	}
+	return rel
+}
+
+// c16TSpell spells the path of `to` (below the case directory) as an include of a file in fromDir: plain, with `./`,
+// up to the parent and down again, through another directory of the tree, with a doubled slash.
+func c16TSpell(r *RNG, fromDir, to string, dirs []string) string {
+	rel := c16TRel(fromDir, to)
+	switch r.Intn(9) {
+	case 3:
+		return "./" + rel
+	case 4:
+		return "././" + rel
+	case 5:
+		if fromDir != "" {
+			return "../" + filepath.Base(fromDir) + "/" + rel
+		}
+	case 6:
+		via := Pick(r, dirs)
+		if via != fromDir {
+			return c16TRel(fromDir, via) + "/" + c16TRel(via, to)
+		}
+		return "./" + rel
+	case 7:
+		return strings.Replace(rel, "/", "//", 1)
+	}
+	return rel
+}
+
+func c16GenTree(c *Ctx, tc *c16Case, allowFault bool) {
+	r := c.Rng("trees/shape", tc.Idx)
+	t := &c16Tree{}
+	tc.Tree = t
+	n := Pick(r, []int{1, 2, 2, 3, 3, 4, 4, 5, 6})
+	// directories and names
+	rootDir := Pick(r, []string{"", "", "", "top", "top/mid", "a b"})
+	dirs := []string{rootDir}
+	t.Shape = Pick(r, []string{"chain", "fan", "random", "random"})
+	parent := make([]int, n)
+	parent[0] = -1
+	for k := 0; k < n; k++ {
+		dir := rootDir
+		if k > 0 {
+			switch t.Shape {
+			case "chain":
+				parent[k] = k - 1
+			case "fan":
+				parent[k] = 0
+			default:
+				parent[k] = r.Intn(k)
+			}
+			pd := filepath.Dir(t.Files[parent[k]].Rel)
+			if pd == "." {
+				pd = ""
+			}
+			switch r.Intn(6) {
+			case 0, 1:
+				dir = pd
+			case 2:
+				dir = filepath.Join(pd, Pick(r, c16TDirs))
+			case 3:
+				dir = Pick(r, c16TDirs) // below the case directory: above or beside the including file
+			case 4:
+				dir = filepath.Dir(pd) // one up (the case directory at most)
+				if dir == "." {
+					dir = ""
+				}
+			default:
+				dir = Pick(r, dirs)
+			}
+		}
+		if !contains(dirs, dir) {
+			dirs = append(dirs, dir)
+		}
+		name := fmt.Sprintf("f%d%s", k, Pick(r, c16TExts))
+		if r.Chance(1, 7) {
+			name = fmt.Sprintf(Pick(r, c16TOddNames), k)
+		}
+		f := &c16TFile{Rel: filepath.Join(dir, name), Head: Pick(r, c16THeads), Tail: Pick(r, c16TTails), IncSp: Pick(r, c16TIncSp)}
+		t.Files = append(t.Files, f)
+	}
+	// which member holds which directive
+	t.Dist = Pick(r, []string{"random", "random", "period", "period", "kind", "leaves", "one"})
+	t.Scatter = r.Chance(1, 4)
+	ds := tc.J.Dirs
+	assign := make([]int, len(ds))
+	switch t.Dist {
+	case "period":
+		var dates []int
+		for _, d := range ds {
+			if !containsInt(dates, d.Date) {
+				dates = append(dates, d.Date)
+			}
+		}
+		sortInts(dates)
+		perm := make([]int, n) // which member holds which period
+		for k := range perm {
+			perm[k] = k
+		}
+		if r.Chance(1, 2) {
+			for k := n - 1; k > 0; k-- {
+				m := r.Intn(k + 1)
+				perm[k], perm[m] = perm[m], perm[k]
+			}
+		}
+		for i, d := range ds {
+			pos := 0
+			for pos < len(dates) && dates[pos] != d.Date {
+				pos++
+			}
+			assign[i] = perm[pos*n/max(len(dates), 1)]
+		}
+	case "kind":
+		kf := map[byte]int{'o': r.Intn(n), 'c': r.Intn(n), 'p': r.Intn(n), 'a': r.Intn(n)}
+		for i, d := range ds {
+			if d.Kind == 't' {
+				assign[i] = r.Intn(n)
+			} else {
+				assign[i] = kf[d.Kind]
+			}
+		}
+	case "leaves":
+		for i := range ds {
+			if n > 1 {
+				assign[i] = 1 + r.Intn(n-1)
+			}
+		}
+	case "one":
+		k := r.Intn(n)
+		for i := range ds {
+			assign[i] = k
+		}
+	default:
+		for i := range ds {
+			assign[i] = r.Intn(n)
+		}
+	}
+	// the prices of one day stay in one member, in their order (which of two quotes of a pair wins is a matter of the
+	// order in the day's list), and so do the opens and the closes of one day unless the comparison is the loose one
+	group := map[[2]int]int{}
+	for i, d := range ds {
+		if d.Kind == 'p' || ((d.Kind == 'o' || d.Kind == 'c') && !t.Scatter) {
+			key := [2]int{d.Date, int(d.Kind)}
+			if k, ok := group[key]; ok {
+				assign[i] = k
+			} else {
+				group[key] = assign[i]
+			}
+		}
+	}
+	for i, d := range ds {
+		f := t.Files[assign[i]]
+		f.Items = append(f.Items, c16TItem{Kind: 'd', Dir: d})
+	}
+	// the includes: first, last, or anywhere among the directives of the including member
+	place := func(f *c16TFile, it c16TItem, where int) {
+		pos := len(f.Items)
+		switch where {
+		case 0:
+			pos = 0
+		case 1:
+			pos = r.Intn(len(f.Items) + 1)
+		}
+		f.Items = append(f.Items, c16TItem{})
+		copy(f.Items[pos+1:], f.Items[pos:])
+		f.Items[pos] = it
+	}
+	include := func(from, to int) {
+		f := t.Files[from]
+		fd := filepath.Dir(f.Rel)
+		if fd == "." {
+			fd = ""
+		}
+		place(f, c16TItem{Kind: 'i', Path: c16TSpell(r, fd, t.Files[to].Rel, dirs), To: to}, r.Intn(3))
+	}
+	for k := 1; k < n; k++ {
+		include(parent[k], k)
+	}
+	if n > 1 && r.Chance(1, 10) {
+		// a member without includes of its own, included a second time (from any other member): its directives count twice
+		var leaves []int
+		for k := 1; k < n; k++ {
+			leaf := true
+			for m := 1; m < n; m++ {
+				leaf = leaf && parent[m] != k
+			}
+			if leaf {
+				leaves = append(leaves, k)
+			}
+		}
+		k := Pick(r, leaves)
+		from := r.Intn(n - 1)
+		if from >= k {
+			from++
+		}
+		include(from, k)
+		t.Twice = true
+	}
+	// the journal: what the loader collects
+	var union []JDir
+	var walk func(k int)
+	walk = func(k int) {
+		for _, it := range t.Files[k].Items {
+			if it.Kind == 'd' {
+				union = append(union, it.Dir)
+			}
+		}
+		for _, it := range t.Files[k].Items {
+			if it.Kind == 'i' {
+				walk(it.To)
+			}
+		}
+	}
+	walk(0)
+	tc.J = &Journal{Dirs: union}
+	tc.Text, _ = tc.J.Text()
+	// faults
+	if allowFault && r.Chance(2, 5) {
+		anyDir := func(k int) string {
+			d := filepath.Dir(t.Files[k].Rel)
+			if d == "." {
+				return ""
+			}
+			return d
+		}
+		kind := Pick(r, []string{"dangling-include", "dangling-include", "member-gone", "member-gone", "cycle", "syntax"})
+		if kind == "member-gone" && n == 1 {
+			kind = "dangling-include"
+		}
+		switch kind {
+		case "dangling-include":
+			from := r.Intn(n)
+			fd := anyDir(from)
+			other := t.Files[r.Intn(n)]
+			sp := c16TSpell(r, fd, other.Rel, dirs)
+			var p, sub string
+			switch r.Intn(12) {
+			case 0:
+				p, sub = "missing.knut", "no-such-file"
+			case 1:
+				p, sub = "gone/2019.knut", "no-such-directory"
+			case 2:
+				p, sub = "../nowhere.knut", "no-such-file-above"
+			case 3:
+				p, sub = sp+"x", "name-with-a-letter-more"
+			case 4:
+				p, sub = sp[:len(sp)-1], "name-cut-short"
+			case 5:
+				p, sub = filepath.Join(filepath.Dir(sp), c16SwapCase(filepath.Base(sp))), "name-in-other-case"
+			case 6:
+				p, sub = sp+" ", "name-with-trailing-blank"
+			case 7:
+				p, sub = sp+"/x.knut", "path-through-a-file"
+			case 8:
+				p, sub = strings.Repeat("n", 300)+".knut", "name-too-long"
+			case 9:
+				p, sub = Pick(r, []string{".", "", "./"}), "the-directory-itself"
+			case 10:
+				p, sub = c16TRel(fd, Pick(r, dirs)), "a-directory"
+				if p == "" {
+					p = "."
+				}
+			default:
+				p, sub = "f[0-9]*", "pattern-that-is-no-name"
+			}
+			if sub == "name-cut-short" || sub == "name-in-other-case" {
+				// must not name another member (or the same one in another spelling)
+				for _, f := range t.Files {
+					if filepath.Clean(filepath.Join(fd, p)) == f.Rel {
+						p, sub = "missing.knut", "no-such-file"
+					}
+				}
+			}
+			place(t.Files[from], c16TItem{Kind: 'i', Path: p, To: -1}, r.Intn(3))
+			t.Fault = kind + ":" + sub
+		case "member-gone":
+			k := 1 + r.Intn(n-1)
+			st := Pick(r, []string{"absent", "absent", "absent", "directory", "dangling-link", "link-loop", "unreadable"})
+			if st == "unreadable" && os.Geteuid() == 0 {
+				st = "absent" // the owner's mode bits do not bind root
+			}
+			t.Files[k].State = st
+			t.Fault = kind + ":" + st
+		case "cycle":
+			k := r.Intn(n)
+			to := k
+			for to > 0 && r.Chance(1, 2) {
+				to = parent[to] // an ancestor
+			}
+			include(k, to)
+			t.Fault = kind + ":" + map[bool]string{true: "self", false: "ancestor"}[to == k]
+		case "syntax":
+			f := t.Files[r.Intn(n)]
+			place(f, c16TItem{Kind: 'g', Path: Pick(r, c16TGarbage)}, 1+r.Intn(2))
+			t.Fault = kind
+		}
+	}
+	// the bytes between the directives
+	for _, f := range t.Files {
+		plain := r.Chance(1, 4)
+		for k := 0; k+1 < len(f.Items); k++ {
+			if plain {
+				f.Seps = append(f.Seps, "\n")
+				continue
+			}
+			sep := Pick(r, c16TEnds)
+			if r.Chance(1, 2) {
+				sep += Pick(r, c16TBlanks)
+			}
+			for m := r.Intn(3); m > 0 && r.Chance(1, 2); m-- {
+				sep += Pick(r, c16TFill)
+			}
+			f.Seps = append(f.Seps, sep)
+		}
+	}
+	rootRel := t.Files[0].Rel
+	t.Root = rootRel
+	switch r.Intn(6) {
+	case 0:
+		t.Root = "./" + rootRel
+	case 1:
+		if rootDir != "" {
+			t.Root = rootDir + "/../" + filepath.Base(rootDir) + "/" + filepath.Base(rootRel)
+			if strings.Contains(rootDir, "/") {
+				t.Root = rootDir + "/../../" + rootRel
+			}
+		}
+	case 2:
+		t.Root = "/" + rootRel // a doubled slash after the case directory
+	}
+	tc.Tags = append(tc.Tags, "tree-files:"+fmt.Sprint(n), "tree-dist:"+t.Dist)
+	if t.Twice {
+		tc.Tags = append(tc.Tags, "tree-member-twice")
+	}
+	if t.Fault != "" {
+		tc.Tags = append(tc.Tags, "tree-fault:"+t.Fault)
+	}
+}
+
+func c16SwapCase(s string) string {
+	var b strings.Builder
+	for _, ch := range s {
+		switch {
+		case ch >= 'a' && ch <= 'z':
+			b.WriteRune(ch - 32)
+		case ch >= 'A' && ch <= 'Z':
+			b.WriteRune(ch + 32)
+		default:
+			b.WriteRune(ch)
+		}
+	}
+	return b.String()
+}
+
+func containsInt(xs []int, x int) bool {
+	for _, y := range xs {
+		if y == x {
+			return true
+		}
+	}
+	return false
+}
+
+func sortInts(xs []int) {
+	for i := 1; i < len(xs); i++ {
+		for k := i; k > 0 && xs[k-1] > xs[k]; k-- {
+			xs[k-1], xs[k] = xs[k], xs[k-1]
+		}
+	}
+}
+
+// describe adds the tree to the recorded input of a case.
+func (t *c16Tree) describe(in map[string]any) {
+	var files []map[string]string
+	for _, f := range t.Files {
+		m := map[string]string{"path": f.Rel, "text": f.text()}
+		if f.State != "" {
+			m["instead_of_the_file"] = f.State
+		}
+		files = append(files, m)
+	}
+	in["files"] = files
+	in["args"] = strings.Replace(fmt.Sprint(in["args"]), "FILE", "DIR/"+t.Root, 1)
+	in["tree"] = fmt.Sprintf("%d files, shape %s, directives by %s, scatter %v, a member twice %v", len(t.Files), t.Shape, t.Dist, t.Scatter, t.Twice)
+	in["journal"] = "(the union of the members' directives, as one file)\n" + fmt.Sprint(in["journal"])
+	if t.Fault != "" {
+		in["fault"] = t.Fault
+	}
+}
+
+// materialize writes the tree below dir.
+func (t *c16Tree) materialize(dir string) {
+	for _, f := range t.Files {
+		p := dir + "/" + f.Rel
+		os.MkdirAll(filepath.Dir(p), 0o755)
+	}
+	for _, f := range t.Files {
+		p := dir + "/" + f.Rel
+		switch f.State {
+		case "absent":
+		case "directory":
+			os.MkdirAll(p, 0o755)
+		case "dangling-link":
+			os.Symlink("no-such-target.knut", p)
+		case "link-loop":
+			os.Symlink(filepath.Base(p), p)
+		case "unreadable":
+			os.WriteFile(p, []byte(f.text()), 0o000)
+		default:
+			os.WriteFile(p, []byte(f.text()), 0o644)
+		}
+	}
+}
+
+func (tc *c16Case) runTree(c *Ctx, dir string) {
+	t := tc.Tree
+	cd := filepath.Join(dir, fmt.Sprintf("t%d", tc.Idx+100000))
+	os.RemoveAll(cd)
+	t.materialize(cd)
+	run := func(path string) (int, string, string) {
+		code, so, se := runKnut(c.KnutBin, 20*time.Second, nil, tc.Args(path)...)
+		if code == -2 { // a busy machine: once more, with three times the time
+			code, so, se = runKnut(c.KnutBin, 60*time.Second, nil, tc.Args(path)...)
+		}
+		return code, so, se
+	}
+	tc.Code, tc.Stdout, tc.Stderr = run(cd + "/" + t.Root)
+	if t.Fault == "" {
+		single := filepath.Join(dir, fmt.Sprintf("s%d.knut", tc.Idx+100000))
+		os.WriteFile(single, []byte(tc.Text), 0o644)
+		t.SCode, t.SOut, t.SErr = run(single)
+		os.Remove(single)
+	}
+	for _, f := range t.Files {
+		if f.State == "unreadable" {
+			os.Chmod(cd+"/"+f.Rel, 0o644)
+		}
+	}
+	os.RemoveAll(cd)
+}
+
+// c16Loose: the entries with the opens (closes) of one day in the order of their account names.
+func c16Loose(text string) string {
+	cur, es, err := c16Read(text)
+	if err != nil {
+		return text
+	}
+	for i := 0; i < len(es); {
+		k := i + 1
+		if es[i].Kind != 't' {
+			for k < len(es) && es[k].Kind == es[i].Kind && es[k].Day == es[i].Day {
+				k++
+			}
+			run := es[i:k]
+			for a := 1; a < len(run); a++ {
+				for b := a; b > 0 && run[b-1].Account > run[b].Account; b-- {
+					run[b-1], run[b] = run[b], run[b-1]
+				}
+			}
+		}
+		i = k
+	}
+	var b strings.Builder
+	b.WriteString(cur + "\n")
+	for _, e := range es {
+		switch e.Kind {
+		case 't':
+			fmt.Fprintf(&b, "%s * %q\n", fmtDate(e.Day), e.Desc)
+			for _, p := range e.Postings {
+				fmt.Fprintf(&b, "  %s %s %s\n", p.Account, p.Amount, p.Cur)
+			}
+		default:
+			fmt.Fprintf(&b, "%s %c %s\n", fmtDate(e.Day), e.Kind, e.Account)
+		}
+	}
+	return b.String()
+}
+
+func c16LooseOutcome(o string) string {
+	if strings.HasPrefix(o, "ok ") {
+		return "ok " + Hex(c16Loose(UnHex(strings.TrimPrefix(o, "ok "))))
+	}
+	return o
+}
+
+// c16CheckTree judges one case of the stream.
+func c16CheckTree(c *Ctx, bt *Batch, tc *c16Case, agreed *bool) {
+	t := tc.Tree
+	if t.Fault == "" {
+		// the model's text for the union, and the invariants on the real output against the union
+		c16Check(c, bt, tc, agreed)
+		c.Tag(map[bool]string{true: "tree-accepted", false: "tree-rejected-by-its-directives"}[tc.Code == 0])
+		c.Class(fmt.Sprintf("c16/tree/%v/f%d/%s/%s/scatter=%v/twice=%v", tc.Code == 0, len(t.Files), t.Shape, t.Dist, t.Scatter, t.Twice))
+		if tc.Code == -2 || t.SCode == -2 {
+			c.Tag("timeout")
+			return
+		}
+		a, b := tc.Stdout, t.SOut
+		if t.Scatter {
+			a, b = c16Loose(a), c16Loose(b)
+		}
+		c.Monitor(tc.Stream, tc.Idx, "tree_equals_single_file", tc.Input(), (tc.Code == 0) == (t.SCode == 0) && a == b,
+			fmt.Sprintf("the tree: exit %d\n%s\n%s\nthe same directives in one file: exit %d\n%s\n%s", tc.Code, tc.Stdout, clipN(tc.Stderr, 600), t.SCode, t.SOut, clipN(t.SErr, 600)))
+		return
+	}
+	c.Evals++
+	for _, tg := range tc.Tags {
+		c.Tag(tg)
+	}
+	in := tc.Input()
+	impl := tc.implOutcome()
+	c.Class(fmt.Sprintf("c16/tree/%s/%s/f%d/%s", strings.Fields(impl)[0], t.Fault, len(t.Files), t.Dist))
+	detail := fmt.Sprintf("%s; exit %d stdout %q stderr %q", t.Fault, tc.Code, clip(tc.Stdout), clipN(tc.Stderr, 600))
+	// a journal with a member that cannot be loaded is not accepted: whatever ledger were printed for it would lack
+	// that member's transactions (or stand for a journal the user did not write)
+	if !c.Monitor(tc.Stream, tc.Idx, "unloadable_tree_rejected", in, tc.Code != 0, detail) {
+		return
+	}
+	c.Tag("rejected")
+	c.Monitor(tc.Stream, tc.Idx, "clean_failure", in, impl == "error" && tc.Stdout == "" && strings.TrimSpace(tc.Stderr) != "", detail)
+}
+
+func c16RunTrees(c *Ctx, dir string, lo, hi int) (disagree []int) {
+	const stream = "trees"
+	for a := lo; a < hi; a += 2000 {
+		var cases []*c16Case
+		for i := a; i < min(a+2000, hi); i++ {
+			if !c.Want(stream, i) {
+				continue
+			}
+			malformed := i%5 == 4
+			tc := c16GenCase(c, stream, i, malformed)
+			c16GenTree(c, tc, !malformed)
+			cases = append(cases, tc)
+		}
+		parallelFor(len(cases), 16, func(k int) { cases[k].runTree(c, dir) })
+		bt := c.NewBatch()
+		flags := make([]bool, len(cases))
+		for k, tc := range cases {
+			flags[k] = true
+			c16CheckTree(c, bt, tc, &flags[k])
+			if tc.Idx < 2 {
+				c.Sample(tc.Input())
+			}
+		}
+		bt.Flush()
+		for k, ok := range flags {
+			if !ok {
+				disagree = append(disagree, cases[k].Idx)
+			}
+		}
+	}
+	return
 }
